@@ -10,6 +10,7 @@ import Pamiq.Model.TreeDriver
 import Pamiq.Model.ModelsDriver
 import Pamiq.Model.BufferDriver
 import Pamiq.Model.KeeperDriver
+import Pamiq.Model.BookkeepDriver
 open Pamiq
 
 structure DState where
@@ -25,6 +26,7 @@ structure DState where
   buf : Buffer.BufSt := {}
   -- C18 (Keeper)
   keeper : Option Keeper.St := none
+  stats : Bookkeep.DSt := {}
 
 def handle (st : DState) (line : String) : DState × String :=
   match (line.trimAscii.toString.splitOn " ").filter (· ≠ "") with
@@ -57,6 +59,9 @@ def handle (st : DState) (line : String) : DState × String :=
   | "keeper" :: rest =>
     let (k, out) := Keeper.drive st.keeper rest
     ({ st with keeper := k }, out)
+  | "stats" :: rest =>
+    let (b, out) := Bookkeep.drive st.stats rest
+    ({ st with stats := b }, out)
   | _ => (st, "bad-op")
 
 partial def loop (h : IO.FS.Stream) (out : IO.FS.Stream) (st : DState) : IO Unit := do
